@@ -177,7 +177,9 @@ DoneAt(S, l, kind, sid) ==           \* first position at which the row is in a 
 TimeAt(S, k) == S[k].ev.now
 \* retry: at most count+1 attempts, none after the first success, final state = state of the last attempt
 AttemptBound(D, O, rerunSeen) ==
-  \A t \in Rng(O.tk) : (D.tasks[t.name].items = -1 /\ ~rerunSeen /\ ~t.isJoin) =>
+  \* (a join that waits for ALL its inbound tasks cannot be triggered again once it started, so it is covered too;
+  \*  partial joins can be re-armed by surplus triggers - known finding KF-C04-1 - and are left to JoinOnce)
+  \A t \in Rng(O.tk) : (D.tasks[t.name].items = -1 /\ ~rerunSeen /\ (~t.isJoin \/ D.tasks[t.name].join = -1)) =>
      Cardinality(Kids(O, t.sid)) <= D.tasks[t.name].retry + 1
 StopAtFirstSuccess(D, S, l) ==
   LET O == S[l].obs IN
